@@ -584,6 +584,26 @@ func C19Scenarios(tier string) []*h.Scenario {
 		}
 		out = append(out, s)
 	}
+	// the provider is rebuilt (a refresh fails) after the first removal, then the operator raises the
+	// cloud minimum: later removals are judged on the cloud group as refreshed, not as first seen
+	{
+		g := StdGroup("g1")
+		g.Opts.MinNodes = 0
+		s := &h.Scenario{Name: "c19.rebuild-then-minimum-raised", Groups: []h.GroupSpec{g}, Slots: 6, Quantum: Q, MaxEventsPerSlot: 1}
+		s.Init = func(hh *h.Hist) {
+			a := InitASGs(hh)[0]
+			n := hh.W.AddNode(a, sim.NodeOpt{Age: 20 * Q})
+			hh.W.AddPod(podOn(g, n.Name, 500))
+			// one node is due at once (the first removal), the other two only three scans later
+			hh.W.AddNode(a, sim.NodeOpt{Age: 21 * Q, TaintAge: dp(3 * Q)})
+			hh.W.AddNode(a, sim.NodeOpt{Age: 22 * Q, TaintAge: dp(0)})
+			hh.W.AddNode(a, sim.NodeOpt{Age: 23 * Q, TaintAge: dp(0)})
+		}
+		s.Events = func(hh *h.Hist, slot int) []h.Event {
+			return []h.Event{evRefreshFails(), evASGEdit(g.ASG.Name, 3, 8), evASGEdit(g.ASG.Name, 2, 8), evRestart()}
+		}
+		out = append(out, s)
+	}
 	// a dozen nodes due in one scan: the batch is one request (refused as a whole when it would breach
 	// the cloud minimum; no Node object deleted before the cloud accepted every termination)
 	for _, min := range []int64{0, 2} {
